@@ -156,12 +156,11 @@ func (b *RecordBatch) decode(pd packetDecoder) (err error) {
 		return err
 	}
 
-	numRecs, err := pd.getArrayLength()
+	// the records are counted inside the (possibly compressed) payload, so the count is checked
+	// against the decompressed payload below and not against the bytes that follow it on the wire
+	numRecs, err := pd.getInt32()
 	if err != nil {
 		return err
-	}
-	if numRecs >= 0 {
-		b.Records = make([]*Record, numRecs)
 	}
 
 	bufSize := int(batchLen) - recordBatchOverhead
@@ -185,6 +184,12 @@ func (b *RecordBatch) decode(pd packetDecoder) (err error) {
 	}
 
 	b.recordsLen = len(recBuffer)
+	if numRecs < -1 || int(numRecs) > len(recBuffer) {
+		return errInvalidArrayLength
+	}
+	if numRecs >= 0 {
+		b.Records = make([]*Record, numRecs)
+	}
 	err = decode(recBuffer, recordsArray(b.Records))
 	if err == ErrInsufficientData {
 		b.PartialTrailingRecord = true
